@@ -202,6 +202,16 @@ def zipDecompress (P : Prims) (Z : ZipConsts) (s : Bytes) : Except Err Bytes := 
   ensure (!more) .exceededSize
   pure out
 
+/-- One recipient's contribution to `cek_set`: `except (AssertionError, JoseError)` swallows the failure
+only in any-recipient mode. -/
+def recipientCeks (verifyAll : Bool) (x : Except Err Bytes) : Except Err (List Bytes) :=
+  match x with
+  | .ok cek => .ok [cek]
+  | .error (.need q) => .error (.need q)
+  | .error e =>
+    if (e == .assertionError || (e.documented && e != .valueError)) && !verifyAll then .ok []
+    else .error e
+
 /-- Recover the CEKs of all recipients (`cek_set`), honouring `verify_all_recipients`. -/
 def collectCeks (P : Prims) (E : Env) (T : KeyTables) (reg : JweRegistry) (enc : JweEncRow) (m : JweMsg) :
     List Recipient → Except Err (List Bytes)
@@ -210,13 +220,7 @@ def collectCeks (P : Prims) (E : Env) (T : KeyTables) (reg : JweRegistry) (enc :
     let headers := recipientHeaders m r
     reg.checkHeader (.obj headers) true
     let alg ← reg.getAlg (← pyGetItemStr (.obj headers) "alg")
-    let this ← match decryptRecipient P E T alg enc headers r m.tag with
-      | .ok cek => pure [cek]
-      | .error (.need q) => .error (.need q)
-      | .error e =>
-        -- `except (AssertionError, JoseError)`: swallowed only in any-recipient mode
-        if (e == .assertionError || (e.documented && e != .valueError)) && !reg.verifyAll then pure []
-        else .error e
+    let this ← recipientCeks reg.verifyAll (decryptRecipient P E T alg enc headers r m.tag)
     let others ← collectCeks P E T reg enc m rest
     pure (this ++ others)
 
